@@ -15,14 +15,12 @@ from .. import core
 from ..core import q, qs, guarded, same, unq
 
 MODEL_NMAX = 64          # the model's DFT at Q is O(n^2): model comparison for n <= 64, oracle alone above
-ANALYTIC_SAFE = 100      # the analytic model is evaluated up to this many terms ...
-ANALYTIC_DEEP = 400      # ... and again from this many (far beyond CPython's recursion limit / 4 frames per term)
+ANALYTIC_MANY = 100      # the analytic model costs ~n_terms*n: above this many terms it is evaluated on a sample
 TOL = 1e-7               # model comparison, relative to the natural scale (sum |tr| for coefficients, peak for curves)
 OTOL = 1e-8              # oracle: relative to the peak
 
 SIG_FROM_CONST = 'filter_from_fft:constant-reconstruction:NaN'
 SIG_ANA_CONST = 'analytical_model_from_fft:constant-reconstruction:NaN'
-SIG_ANA_DEEP = 'analytical_model_from_fft:terms>=%d:RecursionError' % ANALYTIC_DEEP
 
 
 def fl(xs):
@@ -87,7 +85,7 @@ def impl_call(case):
         return res
     out['from'] = guarded(run_from)
     nt = len(r[4])
-    if case.get('ana', nt <= ANALYTIC_SAFE):
+    if case.get('ana', True):
         def run_ana():
             m = ff.analytical_model_from_fft(*args)
             grid = ff._simplified_wavelength(r[0], r[1], r[2])
@@ -162,6 +160,8 @@ def cmp_curve(impl, model, peak, path):
 
 # ------------------------------------------------------------------ oracle (implementation alone)
 def is_constant(case):
+    if 'curve' in case:
+        return case['curve'] == 'constant'
     v = fl(case['vals'])
     return max(v) == min(v)
 
@@ -172,9 +172,19 @@ def median_step(pts):
     return d[m // 2] if m % 2 else (d[m // 2 - 1] + d[m // 2]) / 2
 
 
+class Collector:
+    """worker-side stand-in for the report: the oracle runs where the implementation ran (in parallel)"""
+
+    def __init__(self):
+        self.fails = []
+
+
 def fail(rep, sig, msg, case, out):
     """record an oracle failure; the (possibly large) case and outcome are kept for the first occurrences of a
     signature only (the report uses the first one)"""
+    if isinstance(rep, Collector):
+        rep.fails.append((sig, msg))
+        return
     seen = rep.extra.setdefault('oracle_failure_counts', {})
     seen[sig] = seen.get(sig, 0) + 1
     if seen[sig] <= 3:
@@ -244,9 +254,6 @@ def oracle(rep, case, out):
         if ana['err'] == 'NaN' and const:
             fail(rep, SIG_ANA_CONST, 'the analytic model is all-NaN on the full grid (one retained term / '
                             'constant curve: 0/0 in the rescaling)', case, out)
-        elif ana['err'] == 'RecursionError' and len(t['re']) >= ANALYTIC_DEEP:
-            fail(rep, SIG_ANA_DEEP, 'the analytic model with %d terms cannot be evaluated: RecursionError'
-                            % len(t['re']), case, out)
         else:
             fail(rep, 'analytical_model_from_fft:full-grid:%s' % ana['err'], 'analytic model failed: %s' % ana, case, out)
     elif 'ok' in frm and not is_constant(case):
@@ -359,7 +366,7 @@ def pick_n(rng, thorough):
     return int(round(math.exp(rng.uniform(math.log(65), math.log(2000)))))
 
 
-def gen_case(rng, thorough, n=None, terms=None, deep=False, **kw):
+def gen_case(rng, thorough, n=None, terms=None, many=False, **kw):
     n = n or pick_n(rng, thorough)
     c = gen_filter(rng, n, **kw)
     c['op'] = 'fft_case'
@@ -375,11 +382,12 @@ def gen_case(rng, thorough, n=None, terms=None, deep=False, **kw):
     c['n_terms'] = nt
     c['tclass'] = tclass
     c['from_form'] = rng.choice(['quantity', 'float'])
-    # the analytic model costs ~n_terms^2 to build and n_terms*n to evaluate: always on small grids and for few
-    # terms, sampled (30%) up to ANALYTIC_SAFE terms on large grids, never in the band where the outcome depends
-    # on the interpreter's stack depth; beyond ANALYTIC_DEEP only in the dedicated cases (deep=True)
+    # the analytic model costs ~n_terms*n to evaluate: always on small grids and for few terms, sampled on large
+    # grids (30% up to ANALYTIC_MANY terms, 6% above), always in the dedicated many-term cases (many=True)
     eff = min(nt, n + 1)
-    c['ana'] = bool(deep) or eff <= 24 or (eff <= ANALYTIC_SAFE and (n <= MODEL_NMAX or rng.random() < 0.3))
+    c['ana'] = bool(many) or n <= MODEL_NMAX or eff <= 24 or rng.random() < (0.3 if eff <= ANALYTIC_MANY else 0.06)
+    # thorough: the model (O(n^2) at Q) is compared on a little over half of the small grids
+    c['model'] = n <= MODEL_NMAX and (not thorough or rng.random() < 0.55)
     return c
 
 
@@ -398,10 +406,14 @@ def gen_table_case(rng, thorough):
 
 def gen_cases(rng, thorough):
     """generator: the dedicated cases first, then the random bulk"""
-    # far more terms than the analytic model's nesting allows (first: they are the slowest calls)
-    for _ in range(4 if thorough else 1):
-        n = rng.randint(ANALYTIC_DEEP, ANALYTIC_DEEP + 40)
-        yield gen_case(rng, thorough, n=n, terms='full', deep=True)
+    # several hundred up to grid-length terms with the analytic model evaluated (first: the slowest calls);
+    # before /repo f0f91fa these raised RecursionError from ~250 terms
+    for i in range(40 if thorough else 4):
+        n = rng.randint(260, 2000 if thorough else 700)
+        c = gen_case(rng, thorough, n=n, terms='full' if i % 2 == 0 else 'partial', many=True)
+        if c['tclass'] == 'partial':
+            c['n_terms'] = rng.randint(250, n + 1)
+        yield c
     # every term count 1..n+2 of one small grid per grid kind (complete enumeration of the term counts)
     for grid in ('lattice', 'float', 'irregular'):
         n = rng.randint(8, 16)
@@ -411,16 +423,38 @@ def gen_cases(rng, thorough):
             c['n_terms'] = nt
             c['tclass'] = 'one' if nt == 1 else 'full' if nt >= n + 2 else 'partial'
             c['ana'] = True
+            c['model'] = True
             yield c
     for _ in range(800 if thorough else 40):
         yield gen_table_case(rng, thorough)
     for _ in range(19000 if thorough else 540):
-        yield gen_case(rng, thorough)
+        yield ('gen', rng.getrandbits(64), thorough)        # generated in the pool process from its own seed
 
 
 # ------------------------------------------------------------------ the loop
-def process(rep, cases, with_model=True):
-    impl = core.pmap(impl_call, cases)
+def work(item):
+    """one unit of work in a pool process: a case, or a descriptor ('gen', seed, thorough) from which the case
+    is generated here (deterministic in the seed); implementation, then the oracle on its outcome"""
+    if isinstance(item, tuple):
+        import random
+        _, seed, thorough = item
+        case = gen_case(random.Random(seed), thorough)
+    else:
+        case = item
+    out = impl_call(case)
+    col = Collector()
+    oracle(col, case, out)
+    out['_oracle'] = col.fails
+    if case['op'] == 'fft_case':
+        vals = fl(case['vals'])
+        out['_peak'], out['_sum'] = max(vals), sum(vals)
+    return case, out
+
+
+def process(rep, items, with_model=True):
+    done = core.pmap(work, items)
+    cases = [c for c, _ in done]
+    impl = [o for _, o in done]
     # model lines: phase A on the case, phase B on what the implementation reported
     mlines, slots = [], []
     for i, (c, o) in enumerate(zip(cases, impl)):
@@ -433,7 +467,7 @@ def process(rep, cases, with_model=True):
                                            for f, N in zip(c['filters'], o['Ns'])]})
                 slots.append((i, 'table'))
             continue
-        if len(c['pts']) > MODEL_NMAX or 'ok' not in o['to'] or not o.get('wl_exact'):
+        if len(c['pts']) > MODEL_NMAX or not c.get('model', True) or 'ok' not in o['to'] or not o.get('wl_exact'):
             continue
         mlines.append(model_to(c, o['N'], c['n_terms']))
         slots.append((i, 'to'))
@@ -452,7 +486,8 @@ def process(rep, cases, with_model=True):
                 r = cmp_table(o, m['table'], c)
                 if r:
                     rep.mismatch('fft_table', r, c, o, m)
-            oracle(rep, c, o)
+            for sig, msg in o['_oracle']:
+                fail(rep, sig, msg, c, o)
             continue
         n = len(c['pts'])
         tags = ['op:roundtrip', 'grid:' + c['grid'], 'curve:' + c['curve'], 'terms:' + c['tclass'], 'wform:' + c['wform'],
@@ -465,10 +500,9 @@ def process(rep, cases, with_model=True):
             if not o.get('wl_exact'):
                 tags.append('wl-conversion-inexact')
         rep.count(c, nontrivial=not is_constant(c) and c['n_terms'] > 1, tags=tags)
-        vals = fl(c['vals'])
-        peak = max(vals)
+        peak = o['_peak']
         if 'to' in m:
-            r = cmp_params(o['to'], m['to'], max(sum(vals), peak))
+            r = cmp_params(o['to'], m['to'], max(o['_sum'], peak))
             if r:
                 rep.mismatch('fft_to', r, c, o, m)
         if 'from' in m:
@@ -485,7 +519,8 @@ def process(rep, cases, with_model=True):
                 r = cmp_curve(o['analytic'], mf['analytic'], peak, 'analytic')
             if r:
                 rep.mismatch('fft_from', r, c, o, m)
-        oracle(rep, c, o)
+        for sig, msg in o['_oracle']:
+            fail(rep, sig, msg, c, o)
     return impl
 
 
@@ -512,11 +547,11 @@ RULE = ('bandpass tables (Empirical1D) of n points, n uniform in 8..64 (quick; t
         'wavelengths handed over as None (waveset) / ndarray / list / Quantity in Angstrom, nm, micron; n_terms: 1 (7%%), '
         '>= grid length i.e. every term (28%%), uniform 2..n+1 (45%%), 2..12 (20%%), plus every term count 1..n+2 of one '
         'small grid per grid kind; filter_from_fft / analytical_model_from_fft called with Quantities or plain floats; '
-        'analytic model evaluated for <= %d terms (always on grids <= 64 points or <= 24 terms, for 30%% of the larger '
-        'ones) and in dedicated cases of >= %d terms (not in between: the outcome there depends on the interpreter stack '
-        'depth); filters_to_fft_table on 1-4 such filters incl. ragged n_terms > grid length. Model '
-        'comparison (K = Q, Float sin/cos) for n <= %d, tolerance %g of the scale; oracle alone above. Non-trivial: '
-        'non-constant curve and more than one retained term.' % (ANALYTIC_SAFE, ANALYTIC_DEEP, MODEL_NMAX, TOL))
+        'analytic model evaluated on every grid <= 64 points and for <= 24 terms, on 30%% of the larger cases up to %d '
+        'terms and 6%% above, plus dedicated cases of 250..grid-length terms on grids of 260..700 (thorough ..2000) '
+        'points; filters_to_fft_table on 1-4 such filters incl. ragged n_terms > grid length. Model '
+        'comparison (K = Q, Float sin/cos) for n <= %d (thorough: 55%% of those), tolerance %g of the scale; oracle alone otherwise. Non-trivial: '
+        'non-constant curve and more than one retained term.' % (ANALYTIC_MANY, MODEL_NMAX, TOL))
 
 
 def run(rep):
@@ -526,7 +561,7 @@ def run(rep):
     batch = core.load_corpus('C20')
     for c in gen_cases(rng, thorough):          # in batches: bounded memory (a 2000-point case is ~0.3 MB)
         batch.append(c)
-        if len(batch) >= 2500:
+        if len(batch) >= 2000:
             process(rep, batch)
             batch = []
     if batch:
